@@ -131,6 +131,10 @@ func (p *privateKeySigner) VerifyPreConfirmation(c *preconfpb.PreConfirmation) (
 		return nil, ErrMissingHashSignature
 	}
 
+	if c.Bid == nil {
+		return nil, ErrMissingHashSignature
+	}
+
 	_, err := p.VerifyBid(c.Bid)
 	if err != nil {
 		return nil, err
